@@ -222,6 +222,15 @@ def ruletest_event(i, rr, doc, entry="raw", lit=None, spec=None, shared=None):
     return e
 
 
+def assemble(rules, k):
+    """Schema(rules[:k]) with Schema(rules[k:]) added at the empty root"""
+    import valida
+
+    s = valida.Schema(list(rules[:k]))
+    s.add_schema(valida.Schema(list(rules[k:])), valida.DataPath())
+    return s
+
+
 def validate_obs(rules_rr, doc, shared=None, as_data=False):
     """run Schema(rules).validate(doc); returns (outcome, dict of observations).
     shared: a dict kept by the caller: the Schema object (and its rules) built on the first call is RE-USED on later
@@ -236,12 +245,23 @@ def validate_obs(rules_rr, doc, shared=None, as_data=False):
             raise TypeError("unconstructible recipe")
         if out0 != "ok":
             return out0, {"outcome": out0, "order": [], "writes": [], "unchanged": True}
-        schema = valida.Schema(rules)
+        # construction route (content-derived, so a replay takes the same one): one in three schemas is assembled
+        # from two schemas with add_schema at the empty root - by the specification (AddSchema.tla with an empty
+        # root, stable sort) the very same schema as Schema(rules)
+        import zlib
+        h = zlib.crc32(repr((rules_rr, doc)).encode())
+        if h % 3 == 0 and rules:
+            k = (h // 3) % (len(rules) + 1)
+            out1, schema = outcome_of(lambda: assemble(rules, k))
+            if out1 != "ok":
+                return out1, {"outcome": out1, "order": [], "writes": [], "unchanged": True}
+        else:
+            schema = valida.Schema(rules)
         if shared is not None:
             shared["rules"], shared["schema"] = rules, schema
     order = []
     for r in schema.rules:
-        order.append(next(j for j, x in enumerate(rules, 1) if x is r))
+        order.append(next(j for j, x in enumerate(rules, 1) if x is r or x.condition is r.condition))
     arg = valida.Data(doc) if as_data else doc
     with watch(objs=[schema], docs=[doc]) as w:
         out, vd = outcome_of(lambda: schema.validate(arg))
